@@ -2,6 +2,7 @@
 //! `generate(seed, index, thorough) -> Scenario` and `execute(&Scenario) -> RunReport`.
 
 pub mod common;
+pub mod c09;
 pub mod c10;
 
 use crate::report::RunReport;
@@ -28,10 +29,11 @@ macro_rules! dispatch {
 }
 pub(crate) use dispatch;
 
-pub const CLAIMED: [&str; 1] = ["C10"];
+pub const CLAIMED: [&str; 2] = ["C09", "C10"];
 
 pub fn generate(prop: &str, seed: u64, index: u64, thorough: bool) -> Option<Scenario> {
     Some(match prop {
+        "C09" => c09::generate(seed, index, thorough),
         "C10" => c10::generate(seed, index, thorough),
         _ => return None,
     })
@@ -39,6 +41,7 @@ pub fn generate(prop: &str, seed: u64, index: u64, thorough: bool) -> Option<Sce
 
 pub fn execute(sc: &Scenario) -> Option<RunReport> {
     Some(match sc.property.as_str() {
+        "C09" => c09::execute(sc),
         "C10" => c10::execute(sc),
         _ => return None,
     })
@@ -47,6 +50,8 @@ pub fn execute(sc: &Scenario) -> Option<RunReport> {
 /// default number of runs per (property, tier)
 pub fn default_runs(prop: &str, thorough: bool) -> u64 {
     match (prop, thorough) {
+        ("C09", false) => 600,
+        ("C09", true) => 40_000,
         ("C10", false) => 6_000,
         ("C10", true) => 400_000,
         _ => 1000,
@@ -63,6 +68,7 @@ pub fn level(prop: &str) -> &'static str {
 pub fn rule(prop: &str) -> &'static str {
     match prop {
         "C10" => "Each seeded run generates one scenario (model, data, weights, operation script of 3-24 caller-driven ops with revisits, extreme parameters, failed updates, clones, conversions, an occasional whole fit) and executes it under 3 heap fill patterns; evaluations counts scenario executions. A run is non-trivial only if at least one bitwise comparison against a freshly built problem happened AND its pre-history contained a different parameter vector or a failed update. distinct = distinct signatures (model kind, flavour, and per comparison: op position, the two preceding op kinds, cache presence before, failed-update-in-history flag) among non-trivial runs.",
+        "C09" => "Each seeded run generates one scenario (build -> 0-4 caller-driven ops -> fit or fit_with_statistics -> recovery update and Jacobian). 75% of runs enumerate: the scenario is executed fault-free to learn its sequence of model calls, then EVERY call position is re-executed with a transient failure, a persistent failure (and 'fail after mutating' for set_params; wrong-length closure output for builder-made models; a burst at every 7th position); 25% of runs execute a seeded 2-3 fault plan (bursts, heals, persistent). evaluations counts scenario executions (each with a tap-twin execution when a fit is present). An execution is non-trivial only if a fault actually fired; distinct = distinct signatures (model kind, flavour, kind of the failing call, phase build/pre/fit/post, persistence, action, outcome of the fit).",
         _ => "",
     }
 }
